@@ -230,7 +230,7 @@ func main() {
 	w := NewCaseWriter(cfg)
 	distinct := DistinctSet{}
 	for i := 0; i < cfg.N; i++ {
-		mode := r.Intn(20)
+		mode := r.Intn(22)
 		tb := newTables()
 		switch {
 		case mode < 11:
@@ -314,6 +314,48 @@ func main() {
 			}
 			w.Add(VL(VS("pack"), VN(int64(lim)), VB(ids), tb.gzVal(), tb.urlVal(), VL(tb.js...), g.Val(), VL(lines...), VN(clean)), VL(packObs, unpObs))
 			distinct.Add(human)
+		case mode >= 20: // Packs and an Unpack of ONE instance under a forced interleaving
+			st.Count("mode:cross")
+			socket.SetMessageSizeLimit(c05lib.BigLim)
+			var g *c05lib.GenMsg
+			var ids, out []byte
+			for try := 0; try < 50; try++ {
+				g, ids = genHTTP(r, st)
+				var res string
+				out, res, _, _ = c05lib.PackOne(pf, g, ids)
+				if res == "ok" && inLimits(g, ids) {
+					break
+				}
+				out = nil
+			}
+			if out == nil {
+				break
+			}
+			first, _, _ := headerLines(out)
+			if sp := strings.SplitN(first, " ", 3); len(sp) == 3 && sp[0] == "POST" {
+				tb.url(sp[1])
+			}
+			body := g.Body
+			if len(ids) == 1 {
+				body = tb.gzip(body)
+			}
+			js := tb.json(g.Status())
+			if len(ids) == 1 {
+				tb.unjson(js)
+				tb.gzip(js)
+			}
+			spec := &c05lib.XSpec{Name: "http", PF: pf, Frames: [][]byte{out}}
+			for j, k := 0, 1+r.Intn(3); j < k; j++ {
+				og, oids := genHTTP(r, st)
+				spec.Out = append(spec.Out, func() socket.Message { return og.NewMessage(oids) })
+			}
+			x, _ := spec.Run(r, st, i)
+			obs := VL(VL(), "sfail")
+			if x.OK && x.Unp[0] != "sfail" {
+				obs = VL(VL(x.Unp[0]), "sok")
+			}
+			w.Add(VL(VS("stream"), VN(c05lib.BigLim), tb.gzVal(), tb.urlVal(), VL(tb.js...), VB(out)), obs)
+			distinct.Add(c05lib.Clip(fmt.Sprintf("http cross bytes=%x %s", out, x.Sched)))
 		case mode >= 13 && mode < 15: // one frame arriving in chunks while the same instance sends
 			st.Count("mode:duplex")
 			socket.SetMessageSizeLimit(c05lib.BigLim)
